@@ -8,6 +8,7 @@ here (what must be acknowledged, delivered, rejected), no exception may escape
 a callback, R's output must parse, and from every state in which R is still in
 session a correct transfer in each direction must still complete (epilogue run
 on a snapshot).'''
+import itertools
 from ..peer_world import PeerWorld, PATH, IFACE
 from ..world import World, Violation, HarnessError, Monitor
 from ..oracle import tcpclv4 as T
@@ -582,15 +583,36 @@ def run_unstarted(params, known):
     for role in ('passive', 'active'):
         for nb in (1, 2):
             for seg in (64, 4):
-                for (sname, octets) in strays:
+                # with two bundles in small segments the stray may also arrive when the loop has run a few callbacks:
+                # the first transfer is then under way (some of its segments written), the second still waits
+                for ((sname, octets), steps) in itertools.product(strays, (0, 1, 2, 3, 4) if (nb == 2 and seg == 4) else (0,)):
                     count += 1
                     case = dict(role=role, bundles=nb, segment_size=seg, stray=sname)
+                    if steps:
+                        case['loop_callbacks_before_the_stray'] = steps
                     w = PeerWorld(dict(role=role, keepalive=0, idle=0, seg_mru=64, tx_init=seg))
                     w.peer_write(T.enc_contact(0) + T.enc_sess_init(0, seg, 1000, b'dtn://p/'))
                     w.quiesce()
                     for d in bundles[:nb]:
                         w.bus_call(w.proc, RPATH, 'send_bundle_data', d, iface=RIFACE)
+                    for _ in range(steps):
+                        if w.runnable(w.proc):
+                            w.apply(('run', 'R'))
+                            pipe = w.conns[0].buf[1 - w.ridx]
+                            if pipe:
+                                del pipe[:]
                     before = len(w.out_octets)
+                    if steps:
+                        # a message naming a transfer of which something has been written by now is no stray (a peer may
+                        # acknowledge or refuse that one): only the waiting transfer and unknown ones are judged here
+                        try:
+                            started_now = {m['transfer_id'] for m in T.parse_all(w.out_octets, with_contact=True)[0] if m['kind'] == 'XFER_SEGMENT'}
+                        except Exception:
+                            started_now = set()
+                        named = int(sname.split('id=')[1].split(' ')[0])
+                        if named in started_now or getattr(w.handler(), '_tx_tmp', None) is not None and w.handler()._tx_tmp.transfer_id == named:
+                            count -= 1
+                            continue
                     w.peer_write(octets)
                     # a conforming peer from here on
                     acked = 0
@@ -616,7 +638,7 @@ def run_unstarted(params, known):
                         acked += 1
                         totals[m['transfer_id']] = totals.get(m['transfer_id'], 0) + len(m['data'])
                         w.peer_write(T.enc_ack(m['flags'], m['transfer_id'], totals[m['transfer_id']]))
-                    keys.add('%s/%d/%d/%s' % (role, nb, seg, sname))
+                    keys.add('%s/%d/%d/%s/%d' % (role, nb, seg, sname, steps))
                     if w.escaped:
                         viol('exception-escaped-callback', '%s: %s' % (w.escaped[-1][0], w.escaped[-1][2]), case)
                         continue
